@@ -32,26 +32,26 @@ Theorem unknown_field_refuted :
                  /\ from_raw_parts LE b = Err e
                  /\ read_stream (n1 ++ b ++ n3) = [IMsg 1; IErrMsg; IEnd]
                  /\ spec_stream 400 (n1 ++ b ++ n3) = Some [IMsg 1; IMsg 2; IMsg 3; IErrIo; IEnd].
-Proof. exists odd_field. eexists. eexists. repeat split; vm_compute; reflexivity. Qed.
+Proof. exists odd_field. eexists. eexists. repeat (match goal with |- _ /\ _ => split end); vm_compute; reflexivity. Qed.
 
 Theorem unknown_flag_refuted :
   exists b sm e, spec_parse b = Some sm /\ sm_raw_flags sm = 8 /\ sm_unknown_fields sm = 0 /\ sm_type sm = 1
                  /\ from_raw_parts LE b = Err e
                  /\ read_stream (n1 ++ b ++ n3) = [IMsg 1; IErrMsg; IEnd]
                  /\ spec_stream 400 (n1 ++ b ++ n3) = Some [IMsg 1; IMsg 2; IMsg 3; IErrIo; IEnd].
-Proof. exists odd_flag. eexists. eexists. repeat split; vm_compute; reflexivity. Qed.
+Proof. exists odd_flag. eexists. eexists. repeat (match goal with |- _ /\ _ => split end); vm_compute; reflexivity. Qed.
 
 Theorem unknown_type_refuted :
   exists b sm, spec_parse b = Some sm /\ sm_type sm = 5 /\ sm_raw_flags sm = 0 /\ sm_unknown_fields sm = 0
                /\ read_stream (n1 ++ b ++ n3) = [IMsg 1; IErrMsg; IEnd]
                /\ spec_stream 400 (n1 ++ b ++ n3) = Some [IMsg 1; IMsg 3; IErrIo; IEnd].
-Proof. exists odd_type. eexists. repeat split; vm_compute; reflexivity. Qed.
+Proof. exists odd_type. eexists. repeat (match goal with |- _ /\ _ => split end); vm_compute; reflexivity. Qed.
 
 Theorem full_refuted : ~ C13_full_statement.
 Proof.
   intros [Hm _].
   assert (Hs : exists sm, spec_parse odd_field = Some sm /\ sm_type sm = 1 /\ ph_endian (hv_ph (sm_view sm)) = LE)
-    by (eexists; repeat split; vm_compute; reflexivity).
+    by (eexists; repeat (match goal with |- _ /\ _ => split end); vm_compute; reflexivity).
   destruct Hs as (sm & Hs & Ht & He).
   destruct (Hm odd_field sm Hs ltac:(lia)) as (m & Hp & _). rewrite He in Hp.
   assert (Herr : exists e, from_raw_parts LE odd_field = Err e) by (eexists; vm_compute; reflexivity).
@@ -70,6 +70,9 @@ Lemma frame_built x rest : built_ok x ->
 Proof.
   intros (Hh & Hb & Hsz). destruct x as [h bsig bd nfds]. unfold built_bytes in *. cbn [bm_hdr bm_sig bm_body bm_nfds] in *.
   pose proof Hh as Hh'. unfold hdr_valid in Hh'. repeat (apply andb_prop in Hh'; destruct Hh' as [Hh' ?]).
+  assert (Hty : 1 <= h_type h <= 4) by lia. assert (Hfl : h_flags h <= 7) by lia. assert (Hsn : 1 <= h_serial h < two32) by lia.
+  assert (Hv1 : 1 < 256) by reflexivity.
+  clear - Hh Hb Hsz Hty Hfl Hsn Hv1.
   set (e := h_endian h). set (l := spec_fields h bsig nfds). set (arr := spec_array e l).
   set (b := spec_message h bsig bd nfds) in *.
   set (tail := zeros (padding (len (spec_header h (len bd) l)) 8) ++ bd).
@@ -90,7 +93,7 @@ Proof.
   { unfold primary_read. subst P16. cbn [app]. rewrite endian_rt.
     change (endian_byte e :: nb (h_type h) :: nb (h_flags h) :: nb 1 :: u32_bytes e (len bd) ++ u32_bytes e (h_serial h) ++ u32_bytes e (len arr))
       with ([endian_byte e; nb (h_type h); nb (h_flags h); nb 1] ++ u32_bytes e (len bd) ++ u32_bytes e (h_serial h) ++ u32_bytes e (len arr)).
-    rewrite (de_primary_at e e (h_type h) (h_flags h) 1 (len bd) (h_serial h)) by (unfold two32 in *; lia).
+    rewrite (de_primary_at e e (h_type h) (h_flags h) 1 (len bd) (h_serial h) _ Hty Hfl Hv1 (proj1 Hsz2) Hsn).
     cbn [bind N.eqb Pos.eqb negb]. unfold data_slice.
     rewrite !len_app, !len_u32. change (len [_;_;_;_]) with 4. cbn [N.add N.ltb N.compare Pos.add Pos.succ Pos.compare Pos.compare_cont bind].
     assert (Hat : at_pos ([endian_byte e; nb (h_type h); nb (h_flags h); nb 1] ++ u32_bytes e (len bd) ++ u32_bytes e (h_serial h) ++ u32_bytes e (len arr)) 12 (u32_bytes e (len arr))).
